@@ -11,6 +11,7 @@ import Iggy.Sys.Auth
 import Iggy.Perm.Enum
 import Iggy.Perm.Spec
 import Driver.Journal
+import Iggy.Sdk.Model
 open Iggy Iggy.Log Iggy.Sys
 
 namespace Driver
@@ -95,7 +96,18 @@ def parseCacheLens (s : String) : List (PKey × Nat) :=
 
 /-- member ids in the order the implementation lists them: `ok id:name:n:m m1=p+p,m2=p` -/
 def parseMemberOrder (impl : List String) : List Nat :=
-  ((impl.getD 2 "").splitOn ",").filterMap (fun e => ((e.splitOn "=").headD "").toNat?)
+  -- the SDK lists members sorted by id; the order in which the server's hash map enumerates them (the
+  -- order of the assignment `partition i -> member i mod m`) shows in the shares: the member that holds
+  -- partition 1 comes first, the one that holds partition 2 second, …; members without a partition
+  -- (more members than partitions) come last, their mutual order has no observable effect
+  let ms : List (Nat × Nat) := ((impl.getD 2 "").splitOn ",").filterMap (fun e =>
+    match e.splitOn "=" with
+    | [id, ps] => id.toNat?.map (fun i => (i, ((ps.splitOn "+").filterMap String.toNat?).foldl min 1000000000))
+    | [id] => id.toNat?.map (fun i => (i, 1000000000))
+    | _ => none)
+  let withP := ms.filter (·.2 < 1000000000)
+  let sorted := withP.foldl (fun acc m => (acc.filter (·.2 < m.2)) ++ [m] ++ (acc.filter (·.2 ≥ m.2))) []
+  (sorted ++ ms.filter (·.2 ≥ 1000000000)).map (·.1)
 
 /-- `ok client=<id> …` -/
 def parseClientId (impl : List String) : Option Nat :=
@@ -235,7 +247,9 @@ def showOut (enc : Nat) : Out → String
     (s!"ok {id}:{name}:{n}:{showOptNat "never" e}:{showOptNat "unlimited" m}:{r}:{msgs}:{size} " ++
       ",".intercalate (parts.map (fun p => s!"{p.id}:{p.cur}:{p.msgs}:{p.size}:{p.segs}"))).trimAsciiEnd.toString
   | .stats st t p sg m sz g => s!"ok streams={st} topics={t} partitions={p} segments={sg} messages={m} size={sz} groups={g}"
-  | .group id name n members =>
+  | .group id name n members0 =>
+    -- the SDK lists members sorted by id
+    let members := members0.foldl (fun acc m => (acc.filter (·.1 < m.1)) ++ [m] ++ (acc.filter (·.1 ≥ m.1))) []
     (s!"ok {id}:{name}:{n}:{members.length} " ++ ",".intercalate (members.map (fun m =>
       s!"{m.1}=" ++ "+".intercalate (m.2.map toString)))).trimAsciiEnd.toString
   | .me cid groups =>
@@ -276,6 +290,20 @@ def diffKind (toks : List String) (m i : String) : String :=
   else if op == "get-offset" || op == "store-offset" || op == "delete-offset" then "offsets"
   else op
 
+/-- one incarnation of a high-level consumer as the judge tracks it -/
+structure SdkCons where
+  conn : Nat
+  si : Ident
+  ti : Ident
+  pid : Option Nat            -- `none`: consumer group
+  consumer : Consumer
+  cfg : Sdk.CCfg
+  cons : Sdk.Cons
+  /-- per partition: the last offset yielded by this incarnation -/
+  last : List (Nat × Nat) := []
+  /-- the last `cnext` ended in a stall: a poll request is (almost surely) in flight -/
+  spinning : Bool := false
+
 structure St where
   enc : Nat
   asys : ASys
@@ -302,6 +330,14 @@ structure St where
   xacks : List (Nat × Nat × Nat × Nat × List Nat) := []
   xlin : List (Nat × Nat × Nat × Nat) := []
   xpolls : List (Nat × Nat × Nat × Nat × String) := []
+  /-- SDK high-level clients (C20): producers (id ↦ connection, configuration), consumers -/
+  producers : List (Nat × Nat × Sdk.PCfg Ident Partitioning) := []
+  consumers : List (Nat × SdkCons) := []
+  /-- high-level clients on which a consumer was dropped while its poll request was in flight -/
+  outOfStep : List Nat := []
+  /-- identities used by SDK consumers: (partition, consumer id) ↦ (highest offset yielded so far by any
+  incarnation, some incarnation commits on polling) -/
+  sdkIds : List ((PKey × Nat) × (Option Nat × Bool)) := []
 
 def St.relaxed (st : St) : Bool := st.nowait && !st.settled
 
@@ -615,6 +651,365 @@ def authzCheck (st : St) (aop : AOp) (opS impl : String) : List String :=
       if Perm.Grants perms cp then [] else
         [s!"SPEC-VIOL {st.line} class=unauthorized-allowed op={opS} user={u} needs={repr cp} impl={impl}"]
 
+/-! ## SDK high-level clients (C20) -/
+
+def St.apply (st : St) (aop : AOp) : St × Out :=
+  let (a, out, effs) := stepA st.asys aop
+  ({ st with asys := a, spec := applyEffects st.sys.cfg st.spec effs }, out)
+
+def hlConn (h : Nat) : Nat := 1000 + h
+
+def parseStrat (s : String) : Option Sdk.Strat :=
+  if s == "next" then some .next else if s == "first" then some .first else if s == "last" then some .last
+  else if s.startsWith "offset:" then (dropS s 7).toNat?.map Sdk.Strat.offset
+  else if s.startsWith "ts:" then (dropS s 3).toNat?.map Sdk.Strat.timestamp
+  else none
+
+def parseMode (s : String) : Option (Sdk.Mode × Bool) :=
+  if s == "disabled" then some (.disabled, false) else if s == "polling" then some (.polling, false)
+  else if s == "each" then some (.each, false) else if s == "all" then some (.all, false)
+  else if s.startsWith "nth:" then (dropS s 4).toNat?.map (fun n => (Sdk.Mode.nth n, false))
+  else if s.startsWith "int:" then some (.disabled, true)
+  else none
+
+def stratKind : Sdk.Strat → PollKind
+  | .next => .next | .first => .first | .last => .last | .offset k => .offset k | .timestamp t => .timestamp t
+
+/-- the background task drains the store-offset channel (and, with an interval, stores the consumed offsets) -/
+def sdkDeliver (st : St) (c : SdkCons) : St × SdkCons := Id.run do
+  let mut st := st
+  let mut cons := c.cons
+  let items := cons.pending ++ (if c.cfg.interval then cons.consumed else [])
+  cons := { cons with pending := [] }
+  for (pid, off) in items do
+    let (c1, send) := cons.storeReq pid off false
+    cons := c1
+    if send then
+      let (st1, out) := st.apply (.core c.conn (.storeOffset c.conn c.si c.ti (some pid) c.consumer off))
+      st := st1
+      if out matches .ok then cons := cons.storeAck pid off
+  return (st, { c with cons := cons })
+
+/-- one message from the consumer's stream, in the eventual semantics (the background task has caught up
+before every poll); `none` = stall: no message will ever come in this state -/
+def sdkYield (st : St) (c : SdkCons) : Nat → St × SdkCons × Option Sdk.Yield
+  | 0 => (st, c, none)
+  | fuel + 1 =>
+    match c.cons.pop c.cfg with
+    | some (cons, y) => (st, { c with cons := cons }, some y)
+    | none =>
+      let (st, c) := sdkDeliver st c
+      let (st, out) := st.apply (.core c.conn (.poll c.conn c.si c.ti c.pid c.consumer (stratKind c.cons.strat) c.cfg.batch c.cfg.polling))
+      match out with
+      | .polled pid cur msgs =>
+        let (c1, r1, sync) := c.cons.onReply c.cfg ⟨pid, cur, msgs.map (fun m => ⟨m.off, m.id⟩)⟩
+        let st := match sync with
+          | some (p, o) => (st.apply (.core c.conn (.storeOffset c.conn c.si c.ti (some p) c.consumer o))).1
+          | none => st
+        let (c2, y) := c1.onPolled c.cfg r1
+        match y with
+        | some y => (st, { c with cons := c2 }, some y)
+        | none => if sync.isSome then sdkYield st { c with cons := c2 } fuel else (st, { c with cons := c2 }, none)
+      | _ => (st, c, none)
+
+def showYield (y : Sdk.Yield) : String := s!"{y.pid}:{y.msg.off}:{y.msg.id}"
+
+/-- `k` messages; the text the harness prints -/
+def sdkNext (st : St) (c : SdkCons) : Nat → List String → St × SdkCons × String
+  | 0, acc => (st, c, ("ok " ++ (if acc.isEmpty then "-" else ",".intercalate acc.reverse)))
+  | k + 1, acc =>
+    match sdkYield st c 4 with
+    | (st, c, some y) => sdkNext st { c with last := (c.last.filter (·.1 ≠ y.pid)) ++ [(y.pid, y.msg.off)] } k (showYield y :: acc)
+    | (st, c, none) => (st, c, ("ok " ++ (if acc.isEmpty then "-" else ",".intercalate acc.reverse) ++ " stall"))
+
+/-- specification-level oracles on what a consumer yielded (independent of the consumer model): in
+offset order without gaps or repeats per partition, genuine, and a stall only when nothing is left -/
+def sdkOracle (st : St) (c : SdkCons) (impl : String) : List String := Id.run do
+  let mut out : List String := []
+  let toks := impl.splitOn " "
+  if toks.headD "" != "ok" then return [s!"SPEC-VIOL {st.line} class=consumer-failed impl={impl}"]
+  let ys := (if toks.getD 1 "-" == "-" then [] else (toks.getD 1 "").splitOn ",").filterMap (fun e =>
+    match e.splitOn ":" with
+    | [p, o, i] => do pure ((← p.toNat?), (← o.toNat?), (← i.toNat?))
+    | _ => none)
+  let mut last := c.last
+  for (p, o, i) in ys do
+    match last.find? (·.1 == p) with
+    | some (_, l) =>
+      -- `next` / `offset`: no gaps; `first` / `last` / `timestamp` ask for a fixed position again and again
+      -- (a jump is what was asked for): strictly increasing
+      let gapFree := match c.cons.strat with | .next => true | .offset _ => true | _ => false
+      if !c.cfg.replay && (if gapFree then o != l + 1 else o ≤ l) then
+        out := out ++ [s!"SPEC-VIOL {st.line} class=consumer-order partition={p} after={l} got={o} impl={impl}"]
+    | none => pure ()
+    last := (last.filter (·.1 ≠ p)) ++ [(p, o)]
+    let key : Option PKey := (resolvePart st.sys c.si c.ti p).map (·.1)
+    match key.bind st.spec.get with
+    | some sp =>
+      if !(sp.msgs.any (fun m => m.off == o && m.id == i)) then
+        out := out ++ [s!"SPEC-VIOL {st.line} class=consumer-not-genuine partition={p} offset={o} id={i}"]
+    | none => out := out ++ [s!"SPEC-VIOL {st.line} class=consumer-not-genuine partition={p} (no such partition)"]
+  return out
+
+/-- consumers and consumer groups with the same numeric id are different identities -/
+def idKey (c : Consumer) : Nat := c.id + (if c.grp then 1000000 else 0)
+
+def setAssoc {α : Type} (l : List (Nat × α)) (k : Nat) (v : α) : List (Nat × α) :=
+  (l.filter (·.1 ≠ k)) ++ [(k, v)]
+
+def optPartitioning (s : String) : Option (Option Partitioning) :=
+  if s == "-" then some none else (parsePartitioning s).map some
+
+/-- the SDK operations of the line protocol; `none`: not one of them -/
+def sdkLine (st : St) (toks : List String) (opS implS : String) : Option (St × List String) :=
+  let viol (st : St) (msgs : List String) : St × List String :=
+    ({ st with specViol := st.specViol + (msgs.filter (·.startsWith "SPEC-VIOL")).length,
+               corr := st.corr + (msgs.filter (·.startsWith "CORR-DIFF")).length }, msgs)
+  let cov (st : St) (k : String) : St := { st with cov := bump st.cov k, modelled := st.modelled + 1 }
+  match toks with
+  | ["hl", h] =>
+    let conn := hlConn (h.toNat?.getD 0)
+    let (st, _) := st.apply (.login conn "iggy" "iggy")
+    let cid := ((implS.splitOn "client=").getD 1 "").toNat?
+    let (st, _) := st.apply (.core conn (.me conn (cid.getD 0)))
+    some (viol (cov st "op:hl") (if implS.startsWith "ok" then [] else [s!"SPEC-VIOL {st.line} class=hl-failed impl={implS}"]))
+  | ["hl-close", h] =>
+    let conn := hlConn (h.toNat?.getD 0)
+    let (st, _) := st.apply (.core conn (.close conn))
+    some (cov st "op:hl-close", [])
+  | ["cwait", _] =>
+    let st := st.consumers.foldl (fun st e =>
+      let (st, c) := sdkDeliver st e.2
+      { st with consumers := setAssoc st.consumers e.1 c }) st
+    some (st, [])
+  | ["producer", p, h, s, t, batch, interval, part] =>
+    match parseIdent s, parseIdent t, optPartitioning part with
+    | some si, some ti, some pt =>
+      let h := h.toNat?.getD 0
+      let cfg : Sdk.PCfg Ident Partitioning :=
+        { stream := si, topic := ti, batch := batch.toNat?, interval := interval != "-", partitioning := pt, dflt := .balanced }
+      let st := { st with producers := (st.producers.filter (·.1 ≠ p.toNat?.getD 0)) ++ [(p.toNat?.getD 0, h, cfg)] }
+      let bad := !implS.startsWith "ok"
+      let cls := if st.outOfStep.contains h then "sdk-connection-out-of-step" else "producer-init-failed"
+      some (viol (cov st "op:producer") (if bad then [s!"SPEC-VIOL {st.line} class={cls} op={opS} impl={implS}"] else []))
+    | _, _, _ => none
+  | "psend" :: p :: kind :: rest =>
+    match st.producers.find? (·.1 == p.toNat?.getD 0) with
+    | none => none
+    | some (_, h, cfg) =>
+      let call : Option (Sdk.Call Ident Partitioning InMsg × Ident × Ident) := match kind, rest with
+        | "send", [ms] => (parseMsgs st.enc ms).map (fun m => (.send m, cfg.stream, cfg.topic))
+        | "one", [ms] => (parseMsgs st.enc ms).bind (fun m => m.head?.map (fun x => (.sendOne x, cfg.stream, cfg.topic)))
+        | "part", [pt, ms] => do
+          let pt ← optPartitioning pt
+          let m ← parseMsgs st.enc ms
+          pure (.sendWithPartitioning m pt, cfg.stream, cfg.topic)
+        | "to", [s2, t2, pt, ms] => do
+          let s2 ← parseIdent s2
+          let t2 ← parseIdent t2
+          let pt ← optPartitioning pt
+          let m ← parseMsgs st.enc ms
+          pure (.sendTo s2 t2 m pt, s2, t2)
+        | _, _ => none
+      match call with
+      | none => none
+      | some (call, as, at') =>
+        let reqs := cfg.requests call
+        let conn := hlConn h
+        -- execute the requests in order; stop at the first error (`?` in the producer)
+        let (st1, res, effs) := reqs.foldl (fun (acc : St × Option String × List Effect) r =>
+          match acc with
+          | (st, some e, effs) => (st, some e, effs)
+          | (st, none, effs) =>
+            let (a, out, e2) := stepA st.asys (.core conn (.send r.stream r.topic r.part r.msgs))
+            let st := { st with asys := a, spec := applyEffects st.sys.cfg st.spec e2 }
+            match out with
+            | .ok => (st, none, effs ++ e2)
+            | o => (st, some (showOut st.enc o), effs ++ e2)) (st, none, [])
+        let mtxt := res.getD "ok"
+        let st1 := cov st1 "op:psend"
+        let st1 := { st1 with cov := bump st1.cov s!"psend:{kind}:requests={min reqs.length 4}" , lastTopic := [], snap := [] }
+        let msgs1 := if mtxt == implS then [] else
+          [s!"CORR-DIFF {st.line} kind=psend op={opS} model={mtxt} impl={implS}"]
+        -- producer oracle: everything was appended to partitions of the addressed topic, nothing elsewhere
+        let target : Option (Nat × Nat) := match st.sys.findStream as with
+          | .ok s => (match s.findTopic at' with | .ok t => some (s.id, t.id) | .error _ => none)
+          | .error _ => none
+        let misplaced := effs.any (fun e => match e with
+          | .appended k _ _ => some (k.1, k.2.1) ≠ target
+          | _ => false)
+        let nApp := (effs.map (fun e => match e with | .appended _ _ ms => ms.length | _ => 0)).sum
+        let given := match call with
+          | .send m => m.length | .sendOne _ => 1 | .sendWithPartitioning m _ => m.length | .sendTo _ _ m _ => m.length
+        let msgs2 := if misplaced then [s!"SPEC-VIOL {st.line} class=producer-misaddressed op={opS}"] else []
+        let msgs3 := if res.isNone && nApp != given && !st.sys.cfg.dedupOn then
+          [s!"SPEC-VIOL {st.line} class=producer-lost-or-duplicated op={opS} given={given} appended={nApp}"] else []
+        some (viol st1 (msgs1 ++ msgs2 ++ msgs3))
+  | ["consumer", c, h, name, s, t, pidS, strat, batch, mode, replay] =>
+    match parseIdent s, parseIdent t, parseStrat strat, parseMode mode, name.toNat?, batch.toNat? with
+    | some si, some ti, some sg, some (md, iv), some cid, some b =>
+      let h := h.toNat?.getD 0
+      let conn := hlConn h
+      let grp := pidS == "group"
+      let consumer : Consumer := ⟨grp, cid⟩
+      -- a group consumer creates the group if it is missing, and joins it
+      let st := if grp then
+          let exists' := match st.sys.findStream si with
+            | .ok sx => (match sx.findTopic ti with | .ok tx => (find? tx.groups cid).isSome | .error _ => false)
+            | .error _ => false
+          let st := if exists' then st else (st.apply (.core conn (.createGroup si ti (some cid) name))).1
+          (st.apply (.core conn (.join conn si ti (.num cid)))).1
+        else st
+      let sc : SdkCons := { conn := conn, si := si, ti := ti, pid := if grp then none else pidS.toNat?, consumer := consumer,
+                            cfg := { batch := b, mode := md, interval := iv, replay := replay == "1" }, cons := Sdk.Cons.new sg }
+      let st := { st with consumers := setAssoc st.consumers (c.toNat?.getD 0) sc, lastTopic := [], snap := [] }
+      let st := match sc.pid.bind (fun p => (resolvePart st.sys si ti p).map (·.1)) with
+        | some key =>
+          let k := (key, idKey consumer)
+          let old := (st.sdkIds.find? (·.1 == k)).map (·.2)
+          { st with sdkIds := (st.sdkIds.filter (·.1 != k)) ++ [(k, ((old.bind (·.1)), (old.map (·.2)).getD false || sc.cfg.polling))] }
+        | none => st
+      let bad := !implS.startsWith "ok"
+      let cls := if st.outOfStep.contains h then "sdk-connection-out-of-step" else "consumer-init-failed"
+      some (viol (cov st "op:consumer") (if bad then [s!"SPEC-VIOL {st.line} class={cls} op={opS} impl={implS}"] else []))
+    | _, _, _, _, _, _ => none
+  | ["cnext", c, k, _] =>
+    match st.consumers.find? (·.1 == c.toNat?.getD 0) with
+    | none => none
+    | some (ci, sc) =>
+      let orc := sdkOracle st sc implS
+      let stalled := implS.endsWith " stall"
+      let st := (((implS.splitOn " ").getD 1 "-").splitOn ",").foldl (fun (st : St) e => match e.splitOn ":" with
+        | [p, o, _] => (match p.toNat?, o.toNat? with
+          | some p, some o => (match (resolvePart st.sys sc.si sc.ti p).map (·.1) with
+            | some key =>
+              let k := (key, idKey sc.consumer)
+              let old := (st.sdkIds.find? (·.1 == k)).map (·.2)
+              let hi := match old.bind (·.1) with | some h => max h o | none => o
+              { st with sdkIds := (st.sdkIds.filter (·.1 != k)) ++ [(k, (some hi, (old.map (·.2)).getD false || sc.cfg.polling))] }
+            | none => st)
+          | _, _ => st)
+        | _ => st) st
+      let st0 := cov st "op:cnext"
+      let st0 := { st0 with cov := bump st0.cov (if stalled then "cnext:stall" else "cnext:full"), lastTopic := [], snap := [] }
+      if sc.pid.isSome then
+        -- exact: the consumer model against the system model
+        let (st1, sc1, mtxt) := sdkNext st0 sc (k.toNat?.getD 0) []
+        let msgs1 := if mtxt == implS then [] else
+          [s!"CORR-DIFF {st.line} kind=cnext op={opS} model={mtxt} impl={implS}"]
+        -- liveness: a stall is legitimate only if nothing is left to deliver
+        let left : Bool := match sc1.pid.bind (fun p => (resolvePart st1.sys sc1.si sc1.ti p).map (·.1)) |>.bind st1.spec.get with
+          | some sp =>
+            let from' : Nat := match sc1.last.head? with
+              | some (_, l) => l + 1
+              | none => (match sc1.cons.strat with
+                | .offset k => k
+                | _ => (match sp.getOffset sc1.consumer.grp sc1.consumer.id with | some o => o + 1 | none => 0))
+            sp.msgs.any (fun m => m.off ≥ from')
+          | none => false
+        let resumable := match sc1.cons.strat with | .next => true | .offset _ => true | _ => false
+        let msgs2 := if stalled && left && resumable && sc1.cfg.autoCommitEnabled then
+          [s!"SPEC-VIOL {st.line} class=consumer-stalled-with-messages-left{if mtxt == implS then ":model-agrees" else ""} op={opS} mode={repr sc1.cfg.mode} batch={sc1.cfg.batch} impl={implS}"] else []
+        let sc1 := { sc1 with spinning := stalled }
+        some (viol { st1 with consumers := setAssoc st1.consumers ci sc1 } (orc ++ msgs1 ++ msgs2))
+      else
+        -- group member: judged by the oracles only; remember what was yielded.
+        -- The first message this incarnation yields from a partition: nothing unyielded is skipped
+        -- (unless the group commits on polling) and nothing below the stored offset is read again.
+        let ys := ((implS.splitOn " ").getD 1 "-").splitOn ","
+        let firsts := (ys.foldl (fun (acc : List (Nat × Nat) × List String) e => match e.splitOn ":" with
+          | [p, o, _] => (match p.toNat?, o.toNat? with
+            | some p, some o =>
+              if (acc.1.any (·.1 == p)) then acc else
+              let seen := (acc.1 ++ [(p, o)])
+              (match (resolvePart st.sys sc.si sc.ti p).map (·.1) with
+              | some key =>
+                let info := (st.sdkIds.find? (·.1 == (key, idKey sc.consumer))).map (·.2)
+                let hi := info.bind (·.1)
+                let polling := (info.map (·.2)).getD false || sc.cfg.polling
+                let storedOff := (st.spec.get key).bind (fun sp => sp.getOffset true sc.consumer.id)
+                let skip := !polling && o > (match hi with | some h => h + 1 | none => (match storedOff with | some so => so + 1 | none => 0))
+                let reread := match storedOff with | some so => o ≤ so && !(so == 0 && o == 0) | none => false
+                (seen, acc.2 ++
+                  (if skip then [s!"SPEC-VIOL {st.line} class=group-consumer-skipped partition={p} first={o} yielded-so-far={repr hi} stored={repr storedOff} op={opS}"] else []) ++
+                  (if reread then [s!"SPEC-VIOL {st.line} class=group-consumer-reread partition={p} first={o} stored={repr storedOff} op={opS}"] else []))
+              | none => (seen, acc.2))
+            | _, _ => acc)
+          | _ => acc) (sc.last, [])).2
+        let orc := orc ++ firsts
+        let last := ys.foldl (fun l e => match e.splitOn ":" with
+          | [p, o, _] => (match p.toNat?, o.toNat? with
+            | some p, some o => (l.filter (·.1 ≠ p)) ++ [(p, o)]
+            | _, _ => l)
+          | _ => l) sc.last
+        let sc1 := { sc with last := last, spinning := stalled }
+        some (viol { st0 with consumers := setAssoc st0.consumers ci sc1 } orc)
+  | ["cstore", c, off, pidS] =>
+    match st.consumers.find? (·.1 == c.toNat?.getD 0), off.toNat? with
+    | some (ci, sc), some o =>
+      let pid := (pidS.toNat?).getD sc.cons.curPart
+      let (cons, send) := sc.cons.storeReq pid o sc.cfg.replay
+      let (st1, out) := if send then st.apply (.core sc.conn (.storeOffset sc.conn sc.si sc.ti (some pid) sc.consumer o)) else (st, Out.ok)
+      let cons := if send && (out matches .ok) then cons.storeAck pid o else cons
+      let mtxt := showOut st.enc out
+      let st1 := { (cov st1 "op:cstore") with consumers := setAssoc st1.consumers ci { sc with cons := cons }, lastTopic := [], snap := [] }
+      some (viol st1 (if mtxt == implS then [] else [s!"CORR-DIFF {st.line} kind=cstore op={opS} model={mtxt} impl={implS}"]))
+    | _, _ => none
+  | ["get-offset", _, s, t, pidS, cons] =>
+    -- the offset stored for an identity an SDK consumer uses: WHEN the client's background task and its
+    -- polls store offsets is a matter of scheduling, so the stored value is judged by the property's
+    -- bound (never beyond what was yielded / fetched) and then adopted by the model
+    match parseIdent s, parseIdent t, pidS.toNat?, parseConsumer cons with
+    | some si, some ti, some pid, some cn =>
+      match (resolvePart st.sys si ti pid).map (·.1) with
+      | none => none
+      | some key =>
+        match st.sdkIds.find? (·.1 == (key, idKey cn)) with
+        | none => none
+        | some (_, (hi, polling)) =>
+          let it := implS.splitOn " "
+          let implOff : Option Nat := if implS == "ok none" then none else (it.getD 3 "").toNat?
+          let cur := ((st.spec.get key).map (·.cur)).getD 0
+          let bound : Option Nat := if polling then some cur else hi
+          let v := match implOff, bound with
+            | some o, some b => if o > b then [s!"SPEC-VIOL {st.line} class=commit-beyond-yielded op={opS} bound={b} impl={implS}"] else []
+            | some _, none => [s!"SPEC-VIOL {st.line} class=commit-beyond-yielded op={opS} bound=nothing-yielded impl={implS}"]
+            | none, _ => []
+          let st := match implOff with
+            | some o => (st.apply (.core 0 (.storeOffset 0 si ti (some pid) cn o))).1
+            | none => (st.apply (.core 0 (.deleteOffset 0 si ti (some pid) cn))).1
+          some (viol (cov st "op:get-offset-sdk") v)
+    | _, _, _, _ => none
+  | ["x-group-complete", s, t, g] =>
+    -- every message of every partition of the topic has been yielded by some member of the group
+    match parseIdent s, parseIdent t, g.toNat? with
+    | some si, some ti, some gid =>
+      match st.sys.findStream si with
+      | .error _ => none
+      | .ok sx => match sx.findTopic ti with
+        | .error _ => none
+        | .ok tx =>
+          let v := tx.parts.filterMap (fun (pid, _) =>
+            let key : PKey := (sx.id, tx.id, pid)
+            match st.spec.get key with
+            | none => none
+            | some sp =>
+              if sp.msgs.isEmpty then none else
+              let hi := ((st.sdkIds.find? (·.1 == (key, gid + 1000000))).map (·.2)).bind (·.1)
+              if hi == some sp.cur then none else
+                some s!"SPEC-VIOL {st.line} class=group-incomplete partition={pid} last-offset={sp.cur} yielded-up-to={repr hi}")
+          some (viol (cov st "op:x-group-complete") v)
+    | _, _, _ => none
+  | ["cdrop", c] =>
+    match st.consumers.find? (·.1 == c.toNat?.getD 0) with
+    | none => some (st, [])
+    | some (ci, sc) =>
+      let (st1, sc1) := sdkDeliver st sc
+      let st1 := { st1 with consumers := st1.consumers.filter (·.1 ≠ ci), lastTopic := [], snap := [],
+                            outOfStep := if sc1.spinning then (sc1.conn - 1000) :: st1.outOfStep else st1.outOfStep }
+      some (cov st1 "op:cdrop", [])
+  | _ => none
+
 /-- `ok pid cur a,b,c` against `ok pid cur a,b,c,d,…`: same partition and head, and the implementation's
 messages are a prefix of the expected ones (no-wait: the rest is still on its way to the log) -/
 def pollPrefixOk (exp impl : String) : Bool :=
@@ -716,6 +1111,7 @@ def stepLine (st : St) (raw : String) : St × List String :=
     | none => []
     | some cls => [s!"SPEC-VIOL {st.line} class={cls} op={opS.trimAscii.toString} expected=(its own earlier answer) impl={implS}"]
   let st := { st with specViol := st.specViol + msgs0.length }
+  if let some r := sdkLine st toks opS.trimAscii.toString implS then (r.1, msgs0 ++ r.2) else
   match parseAOp st.enc toks (implS.splitOn " ") with
   | none =>                                -- not modelled (connection handling, ls, scan, …)
     if toks.headD "" == "ls" then
